@@ -698,6 +698,10 @@ pixman_composite_triangles (pixman_op_t			op,
 {
     pixman_trapezoid_t *traps;
 
+    /* A request that draws nothing is still a use of the images */
+    _pixman_image_validate (src);
+    _pixman_image_validate (dst);
+
     if ((traps = convert_triangles (n_tris, tris)))
     {
 	pixman_composite_trapezoids (op, src, dst, mask_format,
